@@ -16,7 +16,8 @@ ArrSeq = z3.ArraySort(z3.IntSort(), SeqV)
 ArrHas = z3.ArraySort(z3.IntSort(), z3.ArraySort(V, z3.BoolSort()))
 ArrMap = z3.ArraySort(z3.IntSort(), z3.ArraySort(V, V))
 
-typ = z3.Function('typ', z3.IntSort(), z3.IntSort())     # class id of a heap object (immutable)
+typ = z3.Function('typ', z3.IntSort(), z3.IntSort())
+tup = z3.Function('tup', z3.IntSort(), z3.SeqSort(V))    # contents of a tuple object (tuples are immutable: not part of the mutable heap)     # class id of a heap object (immutable)
 
 NONE = V.none
 
